@@ -73,6 +73,9 @@ def cases(tier, inst):
                 yield ((form, k, a), "let", "op")
             if k[0] != "const":
                 yield (("or", ("and", a, k), REPRESENTATIVE_4[0]), "let", "op")
+    # domain objects whose class has a field called `_id_` with the same value in every instance: they are distinct objects
+    for t in trees_by_depth(REPRESENTATIVE_8 if tier == "thorough" else REPRESENTATIVE_4, 1):
+        yield (t, "let", "idattr")
     # three operands given to and_() / or_() / entity()
     for a, b, c in itertools.product(REPRESENTATIVE_8 if tier == "thorough" else REPRESENTATIVE_4, repeat=3):
         yield (("andf", a, b, c), "let", "op")
@@ -100,16 +103,20 @@ def query_of(case):
     return ("Q", "an", "entity0" if form == "noentity" else "entity", X, conds, (("x", style, "Item", "D"),))
 
 
+WSPEC_ID = tuple((dk, "IdItem" if dk == "D" else cls, rows) for dk, cls, rows in WSPEC)
+
+
 def run_case(case, inst):
     q = query_of(case)
     tree = case[0]
+    wspec = WSPEC_ID if case[2] == "idattr" else WSPEC
 
     def body():
-        world = build_world(WSPEC, inst)
+        world = build_world(wspec, inst)
         got = eval_entity(q, world, inst, share_terms=(case[2] == "shared"), share_conds=(case[2] == "sharedc"))
         exp = [env["x"] for env in Q.Ref(world, inst).solutions(q)]
         # built afresh on a fresh world: a FIRST evaluation closed after two results, then evaluated fully, twice
-        world2 = build_world(WSPEC, inst)
+        world2 = build_world(wspec, inst)
         later = eval_entity_after_partial(q, world2, inst, share_terms=(case[2] == "shared"),
                                           share_conds=(case[2] == "sharedc"))
         exp2 = [env["x"] for env in Q.Ref(world2, inst).solutions(q)]
